@@ -1,11 +1,148 @@
 import TdVerif.Sexp
+import TdVerif.Model.C14Seq
+import TdVerif.Model.C14Prob
 
 namespace TdVerif.Drive
-open TdVerif Sexp
+open TdVerif Sexp TdVerif.C14
 
+namespace C14IO
+
+/-- `(k a)` / `(k n x)` -/
+def key? : Sexp → Option Key
+  | .list (.atom "k" :: comps) => comps.mapM asAtom?
+  | _ => none
+
+def keys? : Sexp → Option (List Key)
+  | .list (.atom _ :: ks) => ks.mapM key?
+  | _ => none
+
+def optKeys? : Sexp → Option (Option (List Key))
+  | .atom "none" => some none
+  | s => (keys? s).map some
+
+/-- `(m (ins …) (outs …) f)` -/
+def mod? : Sexp → Option Mod
+  | .list [.atom "m", i, o, f] => do pure { ins := ← keys? i, outs := ← keys? o, f := ← asNat? f }
+  | _ => none
+
+def mods? : Sexp → Option (List Mod)
+  | .list (.atom "mods" :: ms) => ms.mapM mod?
+  | _ => none
+
+/-- `(env (k a) …)`: the keys present in the input, each bound to `input key` -/
+def env? (s : Sexp) : Option Env := do
+  let ks ← keys? s
+  pure (ks.map (fun k => (k, V.input k)))
+
+def keySexp (k : Key) : Sexp := tagged "k" (k.map .atom)
+
+partial def vSexp : V → Sexp
+  | .input k => tagged "input" [keySexp k]
+  | .app f args i => tagged "app" [ofNat f, .list (args.map vSexp), ofNat i]
+
+def envSexp (e : Env) : Sexp := .list (e.map (fun kv => .list [keySexp kv.1, vSexp kv.2]))
+
+def runAns : Option Env → Sexp
+  | none => .list [.atom "err"]
+  | some e => tagged "ok" [envSexp e]
+
+def inplace? : Sexp → Option (Option Inplace)
+  | .atom "none" => some none
+  | .atom "yes" => some (some .yes)
+  | .atom "no" => some (some .no)
+  | .atom "empty" => some (some .empty)
+  | _ => none
+
+/-- `(mod (m …) inplace sel)` | `(seq (kids node…) inplace sel pt)` -/
+partial def node? : Sexp → Option Node
+  | .list [.atom "mod", m, ip, sel] => do
+      let m ← mod? m; let ip ← inplace? ip; let sel ← optKeys? sel
+      pure (.mod { m := m, inplace := ip.getD .yes, sel := sel })
+  | .list [.atom "seq", .list (.atom "kids" :: ks), ip, sel, .atom pt] => do
+      pure (.seq (← ks.mapM node?) (← inplace? ip) (← optKeys? sel) (pt == "true"))
+  | _ => none
+
+/-- `(env (k a) …)` with explicit values: `(envv ((k a) tag) …)` gives `input [tag…]` under key a -/
+def envv? : Sexp → Option Env
+  | .list (.atom "envv" :: es) => es.mapM (fun e => match e with
+      | .list [k, .atom tag] => do pure (← key? k, V.input [tag])
+      | _ => none)
+  | _ => none
+
+partial def nodeShape : Node → Sexp
+  | .mod x => ofNat x.m.f
+  | .seq kids _ _ _ => .list (kids.map nodeShape)
+
+def outAns : Except (Env × Bool) Out → Sexp
+  | .error (a, al) => if al then tagged "alias" [] else tagged "err" [envSexp a]
+  | .ok o =>
+    if o.aliased then tagged "alias" [] else
+    match o.fresh with
+    | none => tagged "ok" [.atom "arg", envSexp o.arg, envSexp o.arg]
+    | some e => tagged "ok" [.atom "new", envSexp e, envSexp o.arg]
+
+def itype? : String → Option Prob.IType
+  | "mode" => some .mode | "median" => some .median | "mean" => some .mean
+  | "random" => some .random | "deterministic" => some .deterministic | _ => none
+
+def pickSexp : Prob.Pick → Sexp
+  | .detSample => .atom "det_sample" | .mode => .atom "mode" | .median => .atom "median" | .mean => .atom "mean"
+  | .empMeanRsample => .atom "emp_mean_rsample" | .empMeanSample => .atom "emp_mean_sample"
+  | .rsample => .atom "rsample" | .sample => .atom "sample" | .notImpl => .atom "not_impl"
+
+end C14IO
+
+open C14IO in
 /-- line-protocol handler for C14: commands are named `c14.<something>` -/
 def handleC14 (cmd : String) (args : List Sexp) : Option Sexp :=
   match cmd, args with
+  | "c14.keys", [ms] => do
+      let ms ← mods? ms
+      pure (.list [.list ((inKeys ms).map keySexp), .list ((outKeys ms).map keySexp)])
+  | "c14.run", [ms, e] => do
+      let ms ← mods? ms; let e ← env? e
+      pure (runAns (run ms e))
+  | "c14.select", [ms, ik, ok] => do
+      let ms ← mods? ms; let ik ← optKeys? ik; let ok ← optKeys? ok
+      match selectSub ms ik ok with
+      | none => pure (.list [.atom "err"])
+      | some kept => pure (tagged "ok" (kept.map (fun m => ofNat m.f)))
+  | "c14.run_sel", [ms, sel, e] => do
+      -- one module with select_out_keys(*sel): repaired and pinned hook
+      let ms ← mods? ms; let sel ← keys? sel; let e ← env? e
+      match ms with
+      | [m] => pure (.list [runAns (runModSel m sel e), runAns (runModSelOld m sel e)])
+      | _ => none
+  | "c14.fwd", [n, arg] => do
+      -- a call without tensordict_out: (ok which-object returned-content argument-after) | (err argument-after)
+      let n ← node? n; let arg ← envv? arg
+      pure (outAns (fwdNode n arg))
+  | "c14.fwd_out", [n, arg, out] => do
+      -- a call with tensordict_out: (ok out returned-content argument-after)
+      let n ← node? n; let arg ← envv? arg; let out ← envv? out
+      let r := match n with
+        | .mod x => fwdModOut x arg out
+        | .seq kids _ sel pt => fwdSeqOut kids sel pt arg out
+      match r with
+      | .error (a, al) => pure (if al then tagged "alias" [] else tagged "err" [envSexp a])
+      | .ok (a, o, al) => pure (if al then tagged "alias" [] else tagged "ok" [.atom "out", envSexp o, envSexp a])
+  | "c14.node_keys", [n] => do
+      let n ← node? n
+      pure (.list [.list (n.ins.map keySexp), .list (n.outs.map keySexp)])
+  | "c14.select_node", [n, ik, ok] => do
+      let n ← node? n; let ik ← optKeys? ik; let ok ← optKeys? ok
+      match n with
+      | .seq kids _ sel _ =>
+        match selectNode 8 kids sel ik ok with
+        | none => pure (.list [.atom "err"])
+        | some r => pure (tagged "ok" [nodeShape r, .list (r.ins.map keySexp), .list (r.outs.map keySexp)])
+      | _ => none
+  | "c14.dist_sample", [.atom it, .atom ds, .atom reg, .atom sup, .atom mo, .atom me, .atom mn, .atom rs] => do
+      let it ← itype? it
+      let reg : Option Prob.IType ← (if reg == "none" then some none else (itype? reg).map some)
+      let sup : Prob.SupportCap ← (match sup with | "real" => some .real | "other" => some .other | "not_impl" => some .notImpl | _ => none)
+      let mn : Prob.MeanCap ← (match mn with | "absent" => some .absent | "not_impl" => some .notImpl | "ok" => some .ok | _ => none)
+      pure (pickSexp (Prob.distSample it ⟨ds == "true", reg, sup, mo == "true", me == "true", mn, rs == "true"⟩))
   | _, _ => none
 
 end TdVerif.Drive
